@@ -138,6 +138,7 @@ Qed.
 Inductive shape (c : call) (s s' : state) : Prop :=
 | sh_same :
     s_now s <= s_now s' -> s_v s' = s_v s -> (forall a, balance_of s' a = balance_of s a) ->
+    (s_now s' = s_now s \/ exists n, c = Advance n) ->
     shape c s s'
 | sh_move (from to : option addr) (amt : Z) :
     0 < amt -> s_now s' = s_now s ->
@@ -192,8 +193,11 @@ Lemma delegate_shape s auths acc d v :
   delegate (s_now s) auths (s_v s) acc d = Ok v -> shape (Delegate acc d) s (with_v s v).
 Proof. intros H. apply (sh_delegate _ s _ auths acc d); auto. Qed.
 
-Lemma advance_shape c s n : (0 <=? n) && in_u32 (s_now s + n) = true -> shape c s (with_now s (s_now s + n)).
-Proof. intros H. apply andb_prop in H. destruct H as [H _]. apply Z.leb_le in H. apply sh_same; cbn [s_now s_v with_now]; auto. lia. Qed.
+Lemma advance_shape s n : (0 <=? n) && in_u32 (s_now s + n) = true -> shape (Advance n) s (with_now s (s_now s + n)).
+Proof.
+  intros H. apply andb_prop in H. destruct H as [H _]. apply Z.leb_le in H.
+  apply sh_same; cbn [s_now s_v with_now]; auto; [lia|right; eexists; reflexivity].
+Qed.
 
 Lemma step_f_shape h s auths c s' r : step_f h s auths c = Ok (s', r) -> shape c s s'.
 Proof.
